@@ -41,11 +41,58 @@ def gen_endpoint_option(vc, name):
 ALL_SHAPES = ("one-endpoint", "none", "two-endpoints", "endpoint+other")
 
 
+# ---- contract of EventgroupSubscription.from_subscribe_entry, as its callers see it: the ids,
+# the eventgroup id and counter (low 16 / next 4 bits), the TTL -- and an endpoint set and a
+# tuple of other options that are SOME function of the entry's options (whatever their
+# number).  Callers only ever use the endpoint set as part of the subscription's identity.
+# ob_from_subscribe_entry verifies the real loop element-wise (an arbitrary option goes to
+# exactly one of the two collections, by its class) for arbitrarily many options.
+
+
+def endpoints_of(options_1, options_2):
+    return frozenset(o for o in tuple(options_1) + tuple(options_2) if isinstance(o, H.EndpointOption))
+
+
+def other_options_of(options_1, options_2):
+    return tuple(o for o in tuple(options_1) + tuple(options_2) if not isinstance(o, H.EndpointOption))
+
+
+def _abs_endpoints(vc, name, options_1, options_2):
+    return vc.opaque(name, "frozenset")
+
+
+def _abs_other_options(vc, name, options_1, options_2):
+    return vc.opaque_seq(name, "option")
+
+
+def from_subscribe_entry(cls, entry):
+    return cls(
+        service_id=entry.service_id,
+        instance_id=entry.instance_id,
+        major_version=entry.major_version,
+        id=entry.minver_or_counter % 65536,
+        counter=(entry.minver_or_counter // 65536) % 16,
+        ttl=entry.ttl,
+        endpoints=endpoints_of(entry.options_1, entry.options_2),
+        options=other_options_of(entry.options_1, entry.options_2),
+    )
+
+
+CONTRACTS = {"someip.sd.EventgroupSubscription.from_subscribe_entry": from_subscribe_entry}
+ABSTRACT = {
+    endpoints_of: {"gen": _abs_endpoints, "raises": ()},
+    other_options_of: {"gen": _abs_other_options, "raises": ()},
+}
+
+
 def gen_subscribe_entry(vc, name, max_ttl=TTL_FOREVER, shapes=ALL_SHAPES):
-    """Subscribe entry with resolved options: zero, one or two endpoint options and
-    optionally one other option (BOUNDED number of options)"""
+    """Subscribe entry with resolved options: "many" = arbitrarily many options of any kind;
+    the other shapes: zero, one or two endpoint options and optionally one other option"""
     shape = vc.choice(name + ".options", shapes)
-    if shape == "none":
+    if shape == "many":
+        # ARBITRARILY MANY options of any kind (their handling is from_subscribe_entry's contract)
+        opts = vc.opaque_seq(name + ".option_run", "option")
+    elif shape == "none":
         opts = ()
     elif shape == "one-endpoint":
         opts = (gen_endpoint_option(vc, name + ".ep0"),)
@@ -67,7 +114,7 @@ def gen_subscribe_entry(vc, name, max_ttl=TTL_FOREVER, shapes=ALL_SHAPES):
 class AWorld:
     """an announcer with one service instance in an arbitrary state"""
 
-    def __init__(self, vc, name="a", entry=None, stub_queue=True, track=("A_sub",), shapes=("one-endpoint",), others=(0,)):
+    def __init__(self, vc, name="a", entry=None, stub_queue=True, track=("A_sub",), shapes=("many",), others=(0,)):
         self.vc = vc
         self.loop = vc.install_loop(LL.FakeLoop(vc.real(name + ".now", 0)))
         self.prot, self.sent = SS.gen_sd_protocol(vc, name + ".prot")
@@ -213,7 +260,7 @@ def ob_subscription_echo(vc):
     if len(e.options_1) == 2:
         vc.cover("two-options")
         swapped = H.SOMEIPSDEntry(sd_type=e.sd_type, service_id=e.service_id, instance_id=e.instance_id, major_version=e.major_version, ttl=e.ttl, minver_or_counter=e.minver_or_counter, options_1=(e.options_1[1], e.options_1[0]))
-        vc.check_eq(SD.EventgroupSubscription.from_subscribe_entry(swapped), s, "from_subscribe_entry.identity_does_not_depend_on_the_order_of_the_endpoint_options")
+        vc.check_eq(vc.body(SD.EventgroupSubscription.from_subscribe_entry)(swapped), s, "from_subscribe_entry.identity_does_not_depend_on_the_order_of_the_endpoint_options")
     ack = vc.body(SD.EventgroupSubscription.to_ack_entry)(s)
     nack = vc.body(SD.EventgroupSubscription.to_nack_entry)(s)
     exp = H.SOMEIPSDEntry(
@@ -229,10 +276,83 @@ def ob_subscription_echo(vc):
     vc.check_eq(len(ack.options_1) + len(ack.options_2) + len(nack.options_1) + len(nack.options_2), 0, "ack.carries_no_options")
 
 
+def _gen_any_option(vc, name):
+    if vc.choice(name + ".kind", ("endpoint", "other")) == "endpoint":
+        return gen_endpoint_option(vc, name)
+    return H.SOMEIPSDLoadBalancingOption(priority=vc.int(name + ".prio", 0, 0xFFFF), weight=vc.int(name + ".weight", 0, 0xFFFF))
+
+
+def _fse_head(vc, v, entering):
+    st = vc.stashed("fse")
+    st["entering"] = entering
+    st["endpoints"] = v["endpoints"]
+    st["options"] = v["options"]
+    if entering:
+        st["option"] = v["$target"]
+        st["before"] = (vc.list_tail(v["endpoints"]), vc.list_tail(v["options"]))
+
+
+def _fse_post(vc, v):
+    st = vc.stashed("fse")
+    st["after"] = (vc.list_tail(v["endpoints"]), vc.list_tail(v["options"]))
+
+
+def _gen_collected(vc, name):
+    return vc.sym_list(name)
+
+
+LOOPS = {
+    ("someip.sd.EventgroupSubscription.from_subscribe_entry", 0): {"havoc": {"endpoints": _gen_collected, "options": _gen_collected}, "head": _fse_head, "post": _fse_post},
+}
+
+
+def ob_from_subscribe_entry(vc):
+    """from_subscribe_entry for an entry with ARBITRARILY MANY options in its two runs (loop
+    contract): an arbitrary option is appended to the endpoints iff it is an endpoint option,
+    to the other options otherwise, and to nothing else; the result carries the ids, the
+    eventgroup id and counter, the TTL, the SET of the collected endpoints and the tuple of
+    the collected other options"""
+    e = H.SOMEIPSDEntry(
+        sd_type=H.SOMEIPSDEntryType.Subscribe,
+        service_id=vc.int("e.service_id", 0, 0xFFFF),
+        instance_id=vc.int("e.instance_id", 0, 0xFFFF),
+        major_version=vc.int("e.major_version", 0, 0xFF),
+        ttl=vc.int("e.ttl", 0, TTL_FOREVER),
+        minver_or_counter=vc.int("e.counter", 0, 15) * 65536 + vc.int("e.eventgroup_id", 0, 0xFFFF),
+        options_1=vc.seq("e.options_1", _gen_any_option),
+        options_2=vc.seq("e.options_2", _gen_any_option),
+    )
+    st = {"entering": None, "option": None, "before": None, "after": None, "endpoints": None, "options": None}
+    vc.stash("fse", st)
+    o = vc.outcome(vc.body(SD.EventgroupSubscription.from_subscribe_entry), e)
+    vc.check(o.kind != "raise", "from_subscribe_entry.never_raises")
+    if vc.native:
+        s = o.value
+        alls = tuple(e.options_1) + tuple(e.options_2)
+        vc.check_eq(s.endpoints, frozenset(x for x in alls if isinstance(x, H.EndpointOption)), "from_subscribe_entry.endpoints_are_exactly_the_endpoint_options")
+        vc.check_eq(s.options, tuple(x for x in alls if not isinstance(x, H.EndpointOption)), "from_subscribe_entry.other_options_kept_in_order")
+        return
+    if st["entering"]:
+        vc.cover("option")
+        opt = st["option"]
+        is_ep = isinstance(opt, H.EndpointOption)
+        vc.check_eq(st["after"][0], st["before"][0] + ([opt] if is_ep else []), "from_subscribe_entry.endpoint_option_joins_the_endpoints_and_only_them")
+        vc.check_eq(st["after"][1], st["before"][1] + ([] if is_ep else [opt]), "from_subscribe_entry.other_option_joins_the_options_and_only_them")
+    else:
+        vc.cover("result")
+        vc.check(o.kind == "ret", "from_subscribe_entry.returns")
+        s = o.value
+        vc.check_eq((s.service_id, s.instance_id, s.major_version, s.ttl), (e.service_id, e.instance_id, e.major_version, e.ttl), "from_subscribe_entry.ids_and_ttl")
+        vc.check_eq(s.id, e.minver_or_counter % 65536, "from_subscribe_entry.eventgroup_id")
+        vc.check_eq(s.counter, (e.minver_or_counter // 65536) % 16, "from_subscribe_entry.counter")
+        vc.check(s.endpoints is frozenset(st["endpoints"]), "from_subscribe_entry.endpoints_is_the_set_of_the_collected_endpoint_options")
+        vc.check_eq(s.options, tuple(st["options"]), "from_subscribe_entry.options_is_the_tuple_of_the_collected_other_options")
+
+
 def ob_instance_handle_subscribe(vc):
     """ServiceInstance.handle_subscribe for an arbitrary Subscribe / StopSubscribe entry, any
     instance state, any listener decision, any prior subscription state"""
-    w = AWorld(vc, track=("A_sub", "B_sub", "A_other", "A_parallel"), shapes=("one-endpoint", "endpoint+other"))
+    w = AWorld(vc, track=("A_sub", "B_sub", "A_other", "A_parallel"))
     before = w.snapshot()
     matches = w.service.matches_subscribe(w.entry)
     r = vc.body(SD.ServiceInstance.handle_subscribe)(w.inst, w.entry, w.A)
@@ -366,6 +486,7 @@ def ob_subscribe_after_reboot(vc):
 
 SERVER_SUBSCRIPTION_OBLIGATIONS = [
     ob_subscription_echo,
+    ob_from_subscribe_entry,
     ob_instance_handle_subscribe,
     ob_announcer_handle_subscribe,
     ob_subscription_expiry,
@@ -374,10 +495,7 @@ SERVER_SUBSCRIPTION_OBLIGATIONS = [
     ob_subscribe_after_reboot,
 ]
 
-BOUNDED = [
-    "one to three service instances per announcer, at most one of them claiming a given entry (the property's own quantifier); each subscription store is unbounded",
-    "Subscribe entries carry 0..2 endpoint options and at most one other option",
-]
+BOUNDED = []  # instances per announcer: one to three, the properties' own quantifier; options per entry: unbounded
 
 
 # ============================================================================ FindService (C12)
